@@ -648,7 +648,10 @@ class World:
         if shm is None:
             return None
         if ev.get("how") == "helper":
+            # as parallel_add does: type tag plus the owner's own `args` dict
             st, args = sketch_args(self.cfg)
+            if ev.get("own_args", True) and hasattr(n.primary, "args"):
+                args = n.primary.args
             v = api("attach", boot.SK.helpers.attach_shared_memory, st, args, shm.name)
         else:
             v = make_sketch(self.cfg, shared=False)
